@@ -1,6 +1,10 @@
 (* Proofs/ConcProofs.v — the joint invariant of Model/Conc.v is kept by every atomic action of every activity,
-   hence holds after every action of every schedule; heights, watermarks and the DA-included height never go
-   back and committed blocks are never rewritten. *)
+   hence holds after every action of every schedule; heights, watermarks (volatile AND durable) and the
+   DA-included height never go back and committed blocks are never rewritten.  The data watermark has two
+   writers (data submission loop, block production's numWaitingData); what makes the durable copy monotone is
+   pendingBase.setMu: a writer's knowledge about the watermark is stable exactly while it holds the mutex
+   (frame_p / frame_s: "mu s k = <the other owner> -> unchanged").  Without the mutex the statement is false:
+   two_writers_unlocked_* at the end. *)
 From Coq Require Import NArith List Bool Lia.
 From Verif Require Import Model.Conc.
 Import ListNotations.
@@ -46,30 +50,62 @@ Lemma kind_dec (a b : kind) : a = b \/ a <> b.
 Proof. destruct a, b; (left; reflexivity) || (right; discriminate). Qed.
 
 (* ---- clauses of the other activities survive an action that respects what they read ------------------ *)
-Lemma Pcl_pres s s' p : blk s' = blk s -> ht s' = ht s -> sth s' = sth s -> Pcl s p -> Pcl s' p.
-Proof. intros Hb Hh Hs. unfold Pcl. rewrite Hb, Hh, Hs. exact (fun x => x). Qed.
+Lemma lim_ok_pres s s' w t snap i :
+  blk s' = blk s -> ht s' = ht s -> wmv s Dat <= wmv s' Dat -> lim_ok s w t snap i -> lim_ok s' w t snap i.
+Proof.
+  intros Hb Hh Hw (H1 & H2 & H3 & H4 & H5 & H6). unfold lim_ok, snap_ok in *. rewrite Hb, Hh.
+  split; [lia|]. split; [exact H2|]. split; [exact H3|]. split; [exact H4|]. split; [exact H5 | exact H6].
+Qed.
+
+Lemma Pcl_pres s s' p :
+  blk s' = blk s -> ht s' = ht s -> sth s' = sth s -> wmv s Dat <= wmv s' Dat ->
+  (mu s Dat = 2 -> mu s' Dat = 2 /\ wmv s' Dat = wmv s Dat /\ wmp s' Dat = wmp s Dat) ->
+  Pcl s p -> Pcl s' p.
+Proof.
+  intros Hb Hh Hs Hw Hm.
+  destruct p as [| |w t|w t snap i|w t snap i|w t snap i|w t snap i| | |h|h prev|h prev|h prev txs|h prev txs|h b|h b|h|h|];
+    cbn [Pcl]; rewrite ?Hb, ?Hh, ?Hs; try exact (fun x => x).
+  - intros (H1 & H2 & H3 & H4). split; [exact H1|]. split; [lia|]. split; assumption.
+  - intros (H1 & H2). split; [exact H1|]. eapply lim_ok_pres; eauto.
+  - intros (H1 & H2 & H3 & H4). destruct (Hm H2) as (M1 & M2 & M3).
+    split; [exact H1|]. split; [exact M1|]. split; [rewrite M2, M3; exact H3|]. eapply lim_ok_pres; eauto.
+  - intros (H1 & H2 & H3 & H4). destruct (Hm H2) as (M1 & M2 & M3).
+    split; [exact H1|]. split; [exact M1|]. split; [rewrite M2; exact H3|]. eapply lim_ok_pres; eauto.
+  - intros (H1 & H2 & H3 & H4). destruct (Hm H2) as (M1 & M2 & M3).
+    split; [exact H1|]. split; [exact M1|]. split; [rewrite M2, M3; exact H3|]. eapply lim_ok_pres; eauto.
+Qed.
 
 Lemma snap_ok_pres s s' snap t :
   t <= ht s -> (forall h, h <= ht s -> blk s' h = blk s h) -> snap_ok s snap t -> snap_ok s' snap t.
 Proof. intros Ht Hb H h Hh. rewrite Hb by lia. apply H. exact Hh. Qed.
 
 Lemma Scl_pres k s s' q :
-  ht s <= ht s' -> (forall h, h <= ht s -> blk s' h = blk s h) -> wmv s' k = wmv s k ->
-  (forall x, In x (da s k) -> In x (da s' k)) -> Scl k s q -> Scl k s' q.
+  ht s <= ht s' -> (forall h, h <= ht s -> blk s' h = blk s h) ->
+  (forall x, In x (da s k) -> In x (da s' k)) ->
+  wmv s k <= wmv s' k ->
+  (mu s k = 1 -> mu s' k = 1 /\ wmv s' k = wmv s k /\ wmp s' k = wmp s k) ->
+  Scl k s q -> Scl k s' q.
 Proof.
-  intros Hh Hb Hw Hd. destruct q as [|w t|w t snap|w t snap n|w t snap n|w t snap n]; cbn; rewrite ?Hw; intros H.
+  intros Hh Hb Hd Hw Hm.
+  destruct q as [|w t|w t snap|w t snap n|w t snap n|w t snap n|w t snap n|w t snap n]; cbn [Scl]; intros H.
   - exact I.
   - intuition lia.
   - destruct H as (H1 & H2 & H3 & H4).
-    split; [exact H1|]. split; [exact H2|]. split; [lia|]. eapply snap_ok_pres; eauto.
+    split; [lia|]. split; [exact H2|]. split; [lia|]. eapply snap_ok_pres; eauto.
   - destruct H as (H1 & H2 & H3 & H4 & H5 & H6).
-    split; [exact H1|]. split; [exact H2|]. split; [exact H3|]. split; [lia|]. split; [eapply snap_ok_pres; eauto|].
+    split; [lia|]. split; [exact H2|]. split; [exact H3|]. split; [lia|]. split; [eapply snap_ok_pres; eauto|].
     intros x Hx; apply Hd, H6, Hx.
   - destruct H as (H1 & H2 & H3 & H4 & H5 & H6).
-    split; [exact H1|]. split; [exact H2|]. split; [exact H3|]. split; [lia|]. split; [eapply snap_ok_pres; eauto|].
+    split; [lia|]. split; [exact H2|]. split; [exact H3|]. split; [lia|]. split; [eapply snap_ok_pres; eauto|].
     intros x Hx; apply Hd, H6, Hx.
-  - destruct H as (H1 & H2 & H3 & H4).
-    split; [exact H1|]. split; [exact H2|]. split; [lia|]. eapply snap_ok_pres; eauto.
+  - destruct H as (M & E & H1 & H2 & H3 & H4 & H5 & H6). destruct (Hm M) as (M1 & M2 & M3).
+    split; [exact M1|]. split; [rewrite M2, M3; exact E|].
+    split; [lia|]. split; [exact H2|]. split; [exact H3|]. split; [lia|]. split; [eapply snap_ok_pres; eauto|].
+    intros x Hx; apply Hd, H6, Hx.
+  - destruct H as (M & H1 & H2 & H3 & H4). destruct (Hm M) as (M1 & M2 & M3).
+    split; [exact M1|]. split; [rewrite M2; exact H1|]. split; [exact H2|]. split; [lia|]. eapply snap_ok_pres; eauto.
+  - destruct H as (M & E & H1 & H2 & H3 & H4). destruct (Hm M) as (M1 & M2 & M3).
+    split; [exact M1|]. split; [rewrite M2, M3; exact E|]. split; [lia|]. split; [exact H2|]. split; [lia|]. eapply snap_ok_pres; eauto.
 Qed.
 
 Lemma marked_pres s s' c b : (forall k x, In x (mk s k) -> In x (mk s' k)) -> marked s c b -> marked s' c b.
@@ -108,6 +144,7 @@ Proof.
   - intros h Hh. rewrite upd_neq by lia. apply (g_above s g). exact Hh.
   - rewrite E by lia. apply (g_zero s g).
   - apply (g_wm_le s g).
+  - apply (g_wm_eq s g).
   - intros k h b' Hh. rewrite E by (pose proof (g_wm_le s g k); lia). apply (g_wm_da s g). exact Hh.
   - apply (g_mk_da s g).
   - apply (g_di_le s g).
@@ -129,47 +166,12 @@ Proof.
   - intros h Hh. apply (g_above s g). lia.
   - apply (g_zero s g).
   - intros k. pose proof (g_wm_le s g k). lia.
+  - apply (g_wm_eq s g).
   - apply (g_wm_da s g).
   - apply (g_mk_da s g).
   - pose proof (g_di_le s g). lia.
   - apply (g_di_da s g).
   - apply (g_di_dur s g).
-Qed.
-
-Definition frame_p (s s' : shared) : Prop :=
-  ht s <= ht s' /\ (forall h, h <= ht s -> blk s' h = blk s h) /\
-  wmv s' = wmv s /\ wmp s' = wmp s /\ da s' = da s /\ mk s' = mk s /\ di s' = di s /\ pdi s' = pdi s /\ fin s' = fin s.
-
-Lemma frame_p_refl s : frame_p s s.
-Proof. unfold frame_p. repeat split; try reflexivity; lia. Qed.
-
-Lemma step_p_ok s p e : G s -> Pcl s p ->
-  G (fst (step_p s p e)) /\ Pcl (fst (step_p s p e)) (snd (step_p s p e)) /\ frame_p s (fst (step_p s p e)).
-Proof.
-  intros g H. destruct p as [|h|h prev|h prev|h prev txs|h prev txs|h b|h b|h|h|]; cbn [step_p].
-  - cbn. split; [exact g|]. split; [split; [exact H | reflexivity] | apply frame_p_refl].
-  - cbn. destruct H as [H1 H2]. split; [exact g|]. split; [repeat split; assumption | apply frame_p_refl].
-  - destruct H as (H1 & H2 & H3). destruct (blk s (h + 1)) as [b|] eqn:E; cbn.
-    + split; [exact g|]. split; [repeat split; assumption | apply frame_p_refl].
-    + split; [exact g|]. split; [repeat split; assumption | apply frame_p_refl].
-  - destruct (e_ok e); cbn; (split; [exact g|]); (split; [| apply frame_p_refl]); [exact H | apply H].
-  - cbn. split; [exact g|]. split; [exact H | apply frame_p_refl].
-  - destruct H as (H1 & H2 & H3 & H4). subst h. cbn.
-    split; [apply G_upd_top; [exact g | exact H3]|].
-    split; [split; [exact H1|]; split; [reflexivity | apply upd_eq]|].
-    unfold frame_p; cbn. repeat split; try reflexivity; try lia. intros h Hh. apply upd_neq. lia.
-  - destruct (e_ok e); cbn; (split; [exact g|]); (split; [| apply frame_p_refl]); [exact H | apply H].
-  - destruct H as (H1 & H2 & H3). subst h. cbn.
-    split; [apply G_upd_top; [exact g | cbn; apply (g_early s g); exact H3]|].
-    split; [split; [exact H1|]; split; [reflexivity|]; exists (finalize b); split; [apply upd_eq | reflexivity]|].
-    unfold frame_p; cbn. repeat split; try reflexivity; try lia. intros h Hh. apply upd_neq. lia.
-  - destruct H as (H1 & H2 & H3). subst h. cbn.
-    split; [apply G_set_sth; exact g|]. split; [split; [reflexivity|]; split; [reflexivity | exact H3]|].
-    unfold frame_p; cbn. repeat split; try reflexivity; lia.
-  - destruct H as (H1 & H2 & b & H3 & H4). subst h. cbn.
-    split; [eapply G_incr_ht; eauto|]. split; [exact H1|].
-    unfold frame_p; cbn. repeat split; try reflexivity; lia.
-  - cbn. split; [exact g|]. split; [exact H | apply frame_p_refl].
 Qed.
 
 (* ---- submitters ---------------------------------------------------------------------------------------- *)
@@ -186,6 +188,7 @@ Proof.
   - apply (g_above s g).
   - apply (g_zero s g).
   - apply (g_wm_le s g).
+  - apply (g_wm_eq s g).
   - intros k' h b Hh Hb Hw. apply updk_app_In. eapply (g_wm_da s g); eauto.
   - intros k' x Hx. apply updk_app_In. apply (g_mk_da s g). exact Hx.
   - apply (g_di_le s g).
@@ -201,6 +204,7 @@ Proof.
   - apply (g_above s g).
   - apply (g_zero s g).
   - apply (g_wm_le s g).
+  - apply (g_wm_eq s g).
   - apply (g_wm_da s g).
   - intros k' x Hx. destruct (kind_dec k' k) as [->|Hne].
     + rewrite updk_eq in Hx. apply in_app_or in Hx. destruct Hx as [Hx|Hx]; [apply Hl; exact Hx | apply (g_mk_da s g); exact Hx].
@@ -210,12 +214,15 @@ Proof.
   - apply (g_di_dur s g).
 Qed.
 
-Lemma G_set_wmv s k w t snap n :
-  G s -> w = wmv s k -> w < n -> n <= t -> t <= ht s -> snap_ok s snap t ->
-  (forall x, In x (posted k snap w n) -> In x (da s k)) ->
+(* raising the volatile watermark of kind k to n, by whoever holds the mutex of k: everything its submitter
+   sends between the old value and n is on the DA layer (the submitter: it was just accepted; block production:
+   there is nothing to send, the data stepped over has no transactions) *)
+Lemma G_set_wmv s k n :
+  G s -> mu s k <> 0 -> wmv s k <= n -> n <= ht s ->
+  (forall h b, wmv s k < h <= n -> blk s h = Some b -> wants k b = true -> In (h, b_id b) (da s k)) ->
   G (set_wmv s (updk (wmv s) k n)).
 Proof.
-  intros g Hw Hwn Hnt Hth Hsn Hpo. constructor; cbn.
+  intros g Hmu Hwn Hnh Hpo. constructor; cbn.
   - apply (g_chain s g).
   - apply (g_early s g).
   - apply (g_above s g).
@@ -223,10 +230,12 @@ Proof.
   - intros k'. destruct (kind_dec k' k) as [->|Hne].
     + rewrite updk_eq. pose proof (g_wm_le s g k). lia.
     + rewrite updk_neq by exact Hne. apply (g_wm_le s g).
+  - intros k' Hk'. destruct (kind_dec k' k) as [->|Hne]; [contradiction|].
+    rewrite updk_neq by exact Hne. apply (g_wm_eq s g). exact Hk'.
   - intros k' h b Hh Hb Hwt. destruct (kind_dec k' k) as [->|Hne].
     + rewrite updk_eq in Hh. destruct (N.le_gt_cases h (wmv s k)) as [Hle|Hgt].
       * eapply (g_wm_da s g); eauto. lia.
-      * apply Hpo. apply posted_In; [lia | rewrite Hsn by lia; exact Hb | exact Hwt].
+      * apply Hpo; [lia | exact Hb | exact Hwt].
     + rewrite updk_neq in Hh by exact Hne. eapply (g_wm_da s g); eauto.
   - apply (g_mk_da s g).
   - apply (g_di_le s g).
@@ -244,6 +253,9 @@ Proof.
   - intros k'. destruct (kind_dec k' k) as [->|Hne].
     + rewrite updk_eq. pose proof (g_wm_le s g k). lia.
     + rewrite updk_neq by exact Hne. apply (g_wm_le s g).
+  - intros k' Hk'. destruct (kind_dec k' k) as [->|Hne].
+    + rewrite updk_eq. exact Hn.
+    + rewrite updk_neq by exact Hne. apply (g_wm_eq s g). exact Hk'.
   - apply (g_wm_da s g).
   - apply (g_mk_da s g).
   - apply (g_di_le s g).
@@ -251,16 +263,171 @@ Proof.
   - apply (g_di_dur s g).
 Qed.
 
+(* Lock (v <> 0) and Unlock (v = 0): the mutex may be released only with the durable copy up to date *)
+Lemma G_set_mu s k v : G s -> (v = 0 -> wmp s k = wmv s k) -> G (set_mu s (updk (mu s) k v)).
+Proof.
+  intros g Hv. constructor; cbn.
+  - apply (g_chain s g).
+  - apply (g_early s g).
+  - apply (g_above s g).
+  - apply (g_zero s g).
+  - apply (g_wm_le s g).
+  - intros k' Hk'. destruct (kind_dec k' k) as [->|Hne].
+    + rewrite updk_eq in Hk'. apply Hv. exact Hk'.
+    + rewrite updk_neq in Hk' by exact Hne. apply (g_wm_eq s g). exact Hk'.
+  - apply (g_wm_da s g).
+  - apply (g_mk_da s g).
+  - apply (g_di_le s g).
+  - apply (g_di_da s g).
+  - apply (g_di_dur s g).
+Qed.
+
+(* ---- producer: actions ------------------------------------------------------------------------------------- *)
+(* what an action of block production leaves to the others: the watermarks only grow, and a watermark whose mutex
+   a submission loop holds is not touched at all *)
+Definition frame_p (s s' : shared) : Prop :=
+  ht s <= ht s' /\ (forall h, h <= ht s -> blk s' h = blk s h) /\
+  da s' = da s /\ mk s' = mk s /\ di s' = di s /\ pdi s' = pdi s /\ fin s' = fin s /\
+  (forall k, wmv s k <= wmv s' k) /\ (forall k, wmp s k <= wmp s' k) /\
+  (forall k, mu s k = 1 -> mu s' k = 1 /\ wmv s' k = wmv s k /\ wmp s' k = wmp s k).
+
+Lemma frame_p_base s s' :
+  ht s <= ht s' -> (forall h, h <= ht s -> blk s' h = blk s h) ->
+  da s' = da s -> mk s' = mk s -> di s' = di s -> pdi s' = pdi s -> fin s' = fin s ->
+  wmv s' = wmv s -> wmp s' = wmp s -> mu s' = mu s -> frame_p s s'.
+Proof.
+  intros H1 H2 H3 H4 H5 H6 H7 H8 H9 H10. unfold frame_p. rewrite H8, H9, H10.
+  repeat (split; [assumption|]). split; [intros k; lia|]. split; [intros k; lia|]. intros k Hk. auto.
+Qed.
+
+Lemma frame_p_refl s : frame_p s s.
+Proof. apply frame_p_base; try reflexivity; lia. Qed.
+
+(* an action on the data watermark / its mutex, made while no submission loop holds that mutex *)
+Lemma frame_p_wm s s' :
+  blk s' = blk s -> ht s' = ht s -> da s' = da s -> mk s' = mk s -> di s' = di s -> pdi s' = pdi s -> fin s' = fin s ->
+  (forall k, k <> Dat -> wmv s' k = wmv s k /\ wmp s' k = wmp s k /\ mu s' k = mu s k) ->
+  wmv s Dat <= wmv s' Dat -> wmp s Dat <= wmp s' Dat -> mu s Dat <> 1 -> frame_p s s'.
+Proof.
+  intros H1 H2 H3 H4 H5 H6 H7 Hk Hv Hp Hm. unfold frame_p. rewrite H1, H2.
+  split; [lia|]. split; [reflexivity|]. repeat (split; [assumption|]).
+  split; [|split].
+  - intros k. destruct (kind_dec k Dat) as [->|Hne]; [exact Hv | destruct (Hk k Hne) as (E & _ & _); lia].
+  - intros k. destruct (kind_dec k Dat) as [->|Hne]; [exact Hp | destruct (Hk k Hne) as (_ & E & _); lia].
+  - intros k Hk1. destruct (kind_dec k Dat) as [->|Hne]; [contradiction|].
+    destruct (Hk k Hne) as (E1 & E2 & E3). rewrite E3. auto.
+Qed.
+
+Lemma Pcl_l_next s w t snap i :
+  sth s = ht s -> w <= wmv s Dat -> w < i -> t <= ht s -> snap_ok s snap t ->
+  (forall h b, w < h < i -> snap h = Some b -> b_txs b = false) ->
+  Pcl s (l_next w t snap i).
+Proof.
+  intros Hs Hw Hi Ht Hsn He. unfold l_next. destruct (N.leb_spec i t) as [Hit|Hit]; [|exact Hs].
+  destruct (snap i) as [b0|] eqn:Eb; [|exact Hs]. destruct (b_txs b0) eqn:Etx; [exact Hs|].
+  cbn [Pcl]. split; [exact Hs|]. unfold lim_ok. repeat (split; [assumption|]).
+  intros h b Hh Hb. destruct (N.eq_dec h i) as [->|Hne].
+  - rewrite Eb in Hb. inversion Hb; subst b. exact Etx.
+  - apply (He h b); [lia | exact Hb].
+Qed.
+
+Lemma not_Dat k : k <> Dat -> k = Hdr.
+Proof. destruct k; [reflexivity | intros H; contradiction H; reflexivity]. Qed.
+
+Lemma step_p_ok s p e : G s -> Pcl s p ->
+  G (fst (step_p s p e)) /\ Pcl (fst (step_p s p e)) (snd (step_p s p e)) /\ frame_p s (fst (step_p s p e)).
+Proof.
+  intros g H.
+  destruct p as [| |w t|w t snap i|w t snap i|w t snap i|w t snap i| | |h|h prev|h prev|h prev txs|h prev txs|h b|h b|h|h|]; cbn [step_p].
+  - (* PL0 *) destruct (e_ok e); cbn; (split; [exact g|]); (split; [exact H | apply frame_p_refl]).
+  - (* PL1 *) destruct (N.ltb_spec (wmv s Dat) (ht s)) as [Hlt|Hge]; cbn; (split; [exact g|]); (split; [|apply frame_p_refl]).
+    + split; [exact H|]. split; [lia|]. split; [exact Hlt | lia].
+    + exact H.
+  - (* PL2 *) destruct H as (H1 & H2 & H3 & H4). cbn [fst snd]. split; [exact g|]. split; [|apply frame_p_refl].
+    apply Pcl_l_next; try assumption; try lia.
+    intros h Hh. reflexivity.
+  - (* PL3: Lock *) destruct H as (H1 & H2). destruct (N.eqb_spec (mu s Dat) 0) as [Hfree|Hheld]; cbn [fst snd].
+    + split; [apply G_set_mu; [exact g | intros X; discriminate X]|].
+      split.
+      * cbn. split; [exact H1|]. split; [reflexivity|]. split; [apply (g_wm_eq s g); exact Hfree | exact H2].
+      * apply frame_p_wm; cbn; rewrite ?updk_eq; try reflexivity; try lia; intros k' Hne'; rewrite ?updk_neq by exact Hne'; auto.
+    + split; [exact g|]. split; [split; assumption | apply frame_p_refl].
+  - (* PL4: load + compare-and-swap *) destruct H as (H1 & H2 & H3 & H4). pose proof H4 as (L1 & L2 & L3 & L4 & L5 & L6).
+    destruct (N.ltb_spec (wmv s Dat) i) as [Hlt|Hge]; cbn [fst snd].
+    + split.
+      { apply G_set_wmv; [exact g | lia | lia | lia |].
+        intros h b Hh Hb Hwt. exfalso. cbn in Hwt. rewrite <- (L5 h) in Hb by lia.
+        rewrite (L6 h b) in Hwt; [discriminate | lia | exact Hb]. }
+      split.
+      * cbn. split; [exact H1|]. split; [exact H2|]. split; [reflexivity|].
+        unfold lim_ok; cbn. rewrite ?updk_eq. repeat (split; [assumption || lia|]). exact L6.
+      * apply frame_p_wm; cbn; rewrite ?updk_eq; try reflexivity; try lia; intros k' Hne'; rewrite ?updk_neq by exact Hne'; auto.
+    + split; [exact g|]. split; [cbn; auto | apply frame_p_refl].
+  - (* PL5: put *) destruct H as (H1 & H2 & H3 & H4). cbn [fst snd].
+    split; [apply G_set_wmp; [exact g | exact H3]|].
+    split.
+    + cbn. split; [exact H1|]. split; [exact H2|]. split; [rewrite ?updk_eq; exact H3 | exact H4].
+    + pose proof (g_wm_le s g Dat). apply frame_p_wm; cbn; rewrite ?updk_eq; try reflexivity; try lia; intros k' Hne'; rewrite ?updk_neq by exact Hne'; auto.
+  - (* PL6: Unlock *) destruct H as (H1 & H2 & H3 & H4). destruct H4 as (L1 & L2 & L3 & L4 & L5 & L6). cbn [fst snd].
+    split; [apply G_set_mu; [exact g | intros _; exact H3]|].
+    split.
+    + apply Pcl_l_next; cbn; try assumption; try lia.
+      intros h b Hh Hb. apply (L6 h b); [lia | exact Hb].
+    + apply frame_p_wm; cbn; rewrite ?updk_eq; try reflexivity; try lia; intros k' Hne'; rewrite ?updk_neq by exact Hne'; auto.
+  - (* PL7 *) destruct (e_ok e); cbn; (split; [exact g|]); (split; [exact H | apply frame_p_refl]).
+  - cbn. split; [exact g|]. split; [split; [exact H | reflexivity] | apply frame_p_refl].
+  - cbn. destruct H as [H1 H2]. split; [exact g|]. split; [repeat split; assumption | apply frame_p_refl].
+  - destruct H as (H1 & H2 & H3). destruct (blk s (h + 1)) as [b|] eqn:E; cbn.
+    + split; [exact g|]. split; [repeat split; assumption | apply frame_p_refl].
+    + split; [exact g|]. split; [repeat split; assumption | apply frame_p_refl].
+  - destruct (e_ok e); cbn; (split; [exact g|]); (split; [| apply frame_p_refl]); [exact H | apply H].
+  - cbn. split; [exact g|]. split; [exact H | apply frame_p_refl].
+  - destruct H as (H1 & H2 & H3 & H4). subst h. cbn.
+    split; [apply G_upd_top; [exact g | exact H3]|].
+    split; [split; [exact H1|]; split; [reflexivity | apply upd_eq]|].
+    apply frame_p_base; cbn; try reflexivity; try lia. intros h Hh. apply upd_neq. lia.
+  - destruct (e_ok e); cbn; (split; [exact g|]); (split; [| apply frame_p_refl]); [exact H | apply H].
+  - destruct H as (H1 & H2 & H3). subst h. cbn.
+    split; [apply G_upd_top; [exact g | cbn; apply (g_early s g); exact H3]|].
+    split; [split; [exact H1|]; split; [reflexivity|]; exists (finalize b); split; [apply upd_eq | reflexivity]|].
+    apply frame_p_base; cbn; try reflexivity; try lia. intros h Hh. apply upd_neq. lia.
+  - destruct H as (H1 & H2 & H3). subst h. cbn.
+    split; [apply G_set_sth; exact g|]. split; [split; [reflexivity|]; split; [reflexivity | exact H3]|].
+    apply frame_p_base; cbn; try reflexivity; try lia.
+  - destruct H as (H1 & H2 & b & H3 & H4). subst h. cbn.
+    split; [eapply G_incr_ht; eauto|]. split; [exact H1|].
+    apply frame_p_base; cbn; try reflexivity; try lia.
+  - cbn. split; [exact g|]. split; [exact H | apply frame_p_refl].
+Qed.
+
+(* what an action of the submission loop of kind k leaves to the others: the other watermark and its mutex are not
+   touched; its own watermark only grows and is not touched at all while block production holds its mutex *)
 Definition frame_s (k : kind) (s s' : shared) : Prop :=
   blk s' = blk s /\ ht s' = ht s /\ sth s' = sth s /\ di s' = di s /\ pdi s' = pdi s /\ fin s' = fin s /\
-  (forall k', k' <> k -> wmv s' k' = wmv s k') /\ (forall k', wmv s k' <= wmv s' k') /\
-  (forall k' x, In x (da s k') -> In x (da s' k')) /\ (forall k' x, In x (mk s k') -> In x (mk s' k')).
+  (forall k', k' <> k -> wmv s' k' = wmv s k' /\ wmp s' k' = wmp s k' /\ mu s' k' = mu s k') /\
+  (forall k', wmv s k' <= wmv s' k') /\ (forall k', wmp s k' <= wmp s' k') /\
+  (forall k' x, In x (da s k') -> In x (da s' k')) /\ (forall k' x, In x (mk s k') -> In x (mk s' k')) /\
+  (mu s k = 2 -> mu s' k = 2 /\ wmv s' k = wmv s k /\ wmp s' k = wmp s k).
 
 Lemma frame_s_refl k s : frame_s k s s.
 Proof. unfold frame_s. repeat split; try reflexivity; try lia; auto. Qed.
 
+(* an action on watermark k / its mutex, made while block production does not hold that mutex *)
+Lemma frame_s_wm k s s' :
+  blk s' = blk s -> ht s' = ht s -> sth s' = sth s -> di s' = di s -> pdi s' = pdi s -> fin s' = fin s ->
+  da s' = da s -> mk s' = mk s ->
+  (forall k', k' <> k -> wmv s' k' = wmv s k' /\ wmp s' k' = wmp s k' /\ mu s' k' = mu s k') ->
+  wmv s k <= wmv s' k -> wmp s k <= wmp s' k -> mu s k <> 2 -> frame_s k s s'.
+Proof.
+  intros H1 H2 H3 H4 H5 H6 H7 H8 Hk Hv Hp Hm. unfold frame_s. rewrite H7, H8.
+  repeat (split; [assumption|]).
+  split; [|split; [|split; [auto|split; [auto|intros X; contradiction]]]].
+  - intros k'. destruct (kind_dec k' k) as [->|Hne]; [exact Hv | destruct (Hk k' Hne) as (E & _ & _); lia].
+  - intros k'. destruct (kind_dec k' k) as [->|Hne]; [exact Hp | destruct (Hk k' Hne) as (_ & E & _); lia].
+Qed.
+
 Lemma Scl_next k s t snap n :
-  n = wmv s k -> n <= t -> t <= ht s -> snap_ok s snap t -> Scl k s (s_next t snap n).
+  n <= wmv s k -> n <= t -> t <= ht s -> snap_ok s snap t -> Scl k s (s_next t snap n).
 Proof.
   intros H1 H2 H3 H4. unfold s_next. destruct (N.ltb_spec n t); cbn; [repeat split; assumption | exact I].
 Qed.
@@ -268,9 +435,9 @@ Qed.
 Lemma step_s_ok k s p e : G s -> Scl k s p ->
   G (fst (step_s k s p e)) /\ Scl k (fst (step_s k s p e)) (snd (step_s k s p e)) /\ frame_s k s (fst (step_s k s p e)).
 Proof.
-  intros g H. destruct p as [|w t|w t snap|w t snap n|w t snap n|w t snap n]; cbn [step_s].
+  intros g H. destruct p as [|w t|w t snap|w t snap n|w t snap n|w t snap n|w t snap n|w t snap n]; cbn [step_s].
   - destruct (N.ltb_spec (wmv s k) (ht s)); cbn; (split; [exact g|]); (split; [|apply frame_s_refl]); [|exact I].
-    repeat split; [assumption | lia].
+    repeat split; [lia | assumption | lia].
   - cbn. destruct H as (H1 & H2 & H3). split; [exact g|]. split; [|apply frame_s_refl].
     repeat split; assumption.
   - destruct H as (H1 & H2 & H3 & H4). destruct (e_ok e); [|cbn; split; [exact g|]; split; [exact I | apply frame_s_refl]].
@@ -281,20 +448,35 @@ Proof.
       * repeat split; try assumption. rewrite updk_eq. intros x Hx. apply in_or_app. left. exact Hx.
       * unfold frame_s; cbn. repeat split; try reflexivity; try lia; auto. intros k' x Hx. apply updk_app_In. exact Hx.
     + split; [exact g|]. split; [repeat split; assumption | apply frame_s_refl].
-  - destruct H as (H1 & H2 & H3 & H4 & H5 & H6). cbn.
+  - (* S3: marks *) destruct H as (H1 & H2 & H3 & H4 & H5 & H6). cbn.
     split; [apply G_mk_grow; [exact g | exact H6]|].
     split; [repeat split; assumption|].
     unfold frame_s; cbn. repeat split; try reflexivity; try lia; auto. intros k' x Hx. apply updk_app_In. exact Hx.
-  - destruct H as (H1 & H2 & H3 & H4 & H5 & H6). destruct (N.ltb_spec (wmv s k) n) as [Hlt|Hge]; [|lia]. cbn.
-    split; [eapply G_set_wmv; eauto|].
-    split; [rewrite updk_eq; repeat split; try assumption; reflexivity|].
-    unfold frame_s; cbn. repeat split; try reflexivity; auto.
-    + intros k' Hne. apply updk_neq. exact Hne.
-    + intros k'. destruct (kind_dec k' k) as [->|Hne]; [rewrite updk_eq; lia | rewrite updk_neq by exact Hne; lia].
-  - destruct H as (H1 & H2 & H3 & H4). cbn.
+  - (* SL: Lock *) destruct H as (H1 & H2 & H3 & H4 & H5 & H6). destruct (N.eqb_spec (mu s k) 0) as [Hfree|Hheld]; cbn [fst snd].
+    + split; [apply G_set_mu; [exact g | intros X; discriminate X]|].
+      split.
+      * cbn. split; [apply updk_eq|]. split; [apply (g_wm_eq s g); exact Hfree|]. repeat split; assumption.
+      * apply frame_s_wm; cbn; rewrite ?updk_eq; try reflexivity; try lia; intros k' Hne'; rewrite ?updk_neq by exact Hne'; auto.
+    + split; [exact g|]. split; [cbn; repeat split; assumption | apply frame_s_refl].
+  - (* S4: load + compare-and-swap *) destruct H as (M & E & H1 & H2 & H3 & H4 & H5 & H6).
+    destruct (N.ltb_spec (wmv s k) n) as [Hlt|Hge]; cbn [fst snd].
+    + split.
+      { apply G_set_wmv; [exact g | lia | lia | lia |].
+        intros h b Hh Hb Hwt. apply H6. apply posted_In; [lia | rewrite H5 by lia; exact Hb | exact Hwt]. }
+      split.
+      * cbn. rewrite updk_eq. repeat split; try assumption; reflexivity.
+      * apply frame_s_wm; cbn; rewrite ?updk_eq; try reflexivity; try lia; intros k' Hne'; rewrite ?updk_neq by exact Hne'; auto.
+    + split; [exact g|]. split; [cbn; repeat split; assumption | apply frame_s_refl].
+  - (* S5: put *) destruct H as (M & H1 & H2 & H3 & H4). cbn [fst snd].
     split; [apply G_set_wmp; [exact g | exact H1]|].
-    split; [apply Scl_next; assumption|].
-    unfold frame_s; cbn. repeat split; try reflexivity; try lia; auto.
+    split.
+    + cbn. rewrite updk_eq. repeat split; try assumption; lia.
+    + pose proof (g_wm_le s g k). apply frame_s_wm; cbn; rewrite ?updk_eq; try reflexivity; try lia; intros k' Hne'; rewrite ?updk_neq by exact Hne'; auto.
+  - (* S6: Unlock *) destruct H as (M & E & H1 & H2 & H3 & H4). cbn [fst snd].
+    split; [apply G_set_mu; [exact g | intros _; exact E]|].
+    split.
+    + apply Scl_next; cbn; assumption.
+    + apply frame_s_wm; cbn; rewrite ?updk_eq; try reflexivity; try lia; intros k' Hne'; rewrite ?updk_neq by exact Hne'; auto.
 Qed.
 
 (* ---- includer ------------------------------------------------------------------------------------------ *)
@@ -316,6 +498,7 @@ Proof.
   - apply (g_above s g).
   - apply (g_zero s g).
   - apply (g_wm_le s g).
+  - apply (g_wm_eq s g).
   - apply (g_wm_da s g).
   - apply (g_mk_da s g).
   - exact Hh.
@@ -326,7 +509,7 @@ Proof.
 Qed.
 
 Definition frame_i (s s' : shared) : Prop :=
-  blk s' = blk s /\ ht s' = ht s /\ sth s' = sth s /\ wmv s' = wmv s /\ wmp s' = wmp s /\ da s' = da s /\ mk s' = mk s /\ di s <= di s'.
+  blk s' = blk s /\ ht s' = ht s /\ sth s' = sth s /\ wmv s' = wmv s /\ wmp s' = wmp s /\ da s' = da s /\ mk s' = mk s /\ di s <= di s' /\ mu s' = mu s.
 Lemma frame_i_refl s : frame_i s s.
 Proof. unfold frame_i. repeat split; try reflexivity; lia. Qed.
 
@@ -375,6 +558,7 @@ Proof.
   - reflexivity.
   - reflexivity.
   - intros k. lia.
+  - intros k _. reflexivity.
   - intros k h b Hh. lia.
   - intros k x Hx. exact Hx.
   - lia.
@@ -387,24 +571,33 @@ Proof.
   intros (g & HP & HS & HI). destruct ae as [a e]. destruct a as [|k|]; unfold step.
   - pose proof (step_p_ok (sh st) (pp st) e g HP) as (g' & HP' & F).
     destruct (step_p (sh st) (pp st) e) as [s' p']; cbn [fst snd] in *.
-    destruct F as (F1 & F2 & F3 & F4 & F5 & F6 & F7 & F8 & F9).
+    destruct F as (F1 & F2 & F3 & F4 & F5 & F6 & F7 & F8 & F9 & F10).
     unfold J; cbn. split; [exact g'|]. split; [exact HP'|]. split.
-    + intros k. apply (Scl_pres k (sh st) s'); [exact F1 | exact F2 | rewrite F3; reflexivity | rewrite F5; auto | apply HS].
-    + apply (Icl_pres (sh st) s'); try assumption; [intros h Hh; apply F2; lia | rewrite F6; auto].
+    + intros k. apply (Scl_pres k (sh st) s'); [exact F1 | exact F2 | rewrite F3; auto | apply F8 | | apply HS].
+      intros Hk. destruct (F10 k Hk) as (A & B & C). auto.
+    + apply (Icl_pres (sh st) s'); try assumption; [intros h Hh; apply F2; lia | rewrite F4; auto].
   - pose proof (step_s_ok k (sh st) (ps st k) e g (HS k)) as (g' & HS' & F).
     destruct (step_s k (sh st) (ps st k) e) as [s' p']; cbn [fst snd] in *.
-    destruct F as (F1 & F2 & F3 & F4 & F5 & F6 & F7 & F8 & F9 & F10).
-    unfold J; cbn. split; [exact g'|]. split; [apply (Pcl_pres (sh st) s'); assumption|]. split.
+    destruct F as (F1 & F2 & F3 & F4 & F5 & F6 & F7 & F8 & F9 & F10 & F11 & F12).
+    unfold J; cbn. split; [exact g'|]. split.
+    { apply (Pcl_pres (sh st) s'); try assumption; [apply F8|].
+      intros Hm. destruct (kind_dec Dat k) as [<-|Hne]; [exact (F12 Hm)|].
+      destruct (F7 Dat Hne) as (A & B & C). rewrite C. auto. }
+    split.
     + intros k'. destruct (kind_dec k' k) as [->|Hne].
       * rewrite updk_eq. exact HS'.
-      * rewrite updk_neq by exact Hne.
-        apply (Scl_pres k' (sh st) s'); [rewrite F2; lia | intros h Hh; rewrite F1; reflexivity | apply F7; exact Hne | apply F9 | apply HS].
+      * rewrite updk_neq by exact Hne. destruct (F7 k' Hne) as (A & B & C).
+        apply (Scl_pres k' (sh st) s'); [rewrite F2; lia | intros h Hh; rewrite F1; reflexivity | apply F10 | apply F8 | | apply HS].
+        intros Hk. rewrite C. auto.
     + apply (Icl_pres (sh st) s'); try assumption; [rewrite F2; lia | intros h Hh; rewrite F1; reflexivity].
   - pose proof (step_i_ok (sh st) (pi st) e g HI) as (g' & HI' & F).
     destruct (step_i (sh st) (pi st) e) as [s' p']; cbn [fst snd] in *.
-    destruct F as (F1 & F2 & F3 & F4 & F5 & F6 & F7 & F8).
-    unfold J; cbn. split; [exact g'|]. split; [apply (Pcl_pres (sh st) s'); assumption|]. split; [|exact HI'].
-    intros k. apply (Scl_pres k (sh st) s'); [rewrite F2; lia | intros h Hh; rewrite F1; reflexivity | rewrite F4; reflexivity | rewrite F6; auto | apply HS].
+    destruct F as (F1 & F2 & F3 & F4 & F5 & F6 & F7 & F8 & F9).
+    unfold J; cbn. split; [exact g'|]. split.
+    { apply (Pcl_pres (sh st) s'); try assumption; [rewrite F4; lia|]. rewrite F4, F5, F9. auto. }
+    split; [|exact HI'].
+    intros k. apply (Scl_pres k (sh st) s'); [rewrite F2; lia | intros h Hh; rewrite F1; reflexivity | rewrite F6; auto | rewrite F4; lia | | apply HS].
+    rewrite F4, F5, F9. auto.
 Qed.
 
 Theorem interleaving_from st sched : J st -> J (run st sched).
@@ -426,16 +619,16 @@ Proof.
   intros (g & HP & HS & HI). destruct ae as [a e]. destruct a as [|k|]; unfold step.
   - pose proof (step_p_ok (sh st) (pp st) e g HP) as (_ & _ & F).
     destruct (step_p (sh st) (pp st) e) as [s' p']; cbn [fst snd sh] in *.
-    destruct F as (F1 & F2 & F3 & F4 & F5 & F6 & F7 & F8 & F9).
-    unfold mono. split; [exact F1|]. split; [intros k; rewrite F3; lia|]. split; [lia|]. split; [intros h Hh; apply F2; lia|]. intros k x Hx. rewrite F5. exact Hx.
+    destruct F as (F1 & F2 & F3 & F4 & F5 & F6 & F7 & F8 & F9 & F10).
+    unfold mono. split; [exact F1|]. split; [exact F8|]. split; [exact F9|]. split; [lia|]. split; [intros h Hh; apply F2; lia|]. intros k x Hx. rewrite F3. exact Hx.
   - pose proof (step_s_ok k (sh st) (ps st k) e g (HS k)) as (_ & _ & F).
     destruct (step_s k (sh st) (ps st k) e) as [s' p']; cbn [fst snd sh] in *.
-    destruct F as (F1 & F2 & F3 & F4 & F5 & F6 & F7 & F8 & F9 & F10).
-    unfold mono. split; [lia|]. split; [exact F8|]. split; [lia|]. split; [intros h Hh; rewrite F1; reflexivity | exact F9].
+    destruct F as (F1 & F2 & F3 & F4 & F5 & F6 & F7 & F8 & F9 & F10 & F11 & F12).
+    unfold mono. split; [lia|]. split; [exact F8|]. split; [exact F9|]. split; [lia|]. split; [intros h Hh; rewrite F1; reflexivity | exact F10].
   - pose proof (step_i_ok (sh st) (pi st) e g HI) as (_ & _ & F).
     destruct (step_i (sh st) (pi st) e) as [s' p']; cbn [fst snd sh] in *.
-    destruct F as (F1 & F2 & F3 & F4 & F5 & F6 & F7 & F8).
-    unfold mono. split; [lia|]. split; [intros k; rewrite F4; lia|]. split; [exact F8|]. split; [intros h Hh; rewrite F1; reflexivity|]. intros k x Hx. rewrite F6. exact Hx.
+    destruct F as (F1 & F2 & F3 & F4 & F5 & F6 & F7 & F8 & F9).
+    unfold mono. split; [lia|]. split; [intros k; rewrite F4; lia|]. split; [intros k; rewrite F5; lia|]. split; [exact F8|]. split; [intros h Hh; rewrite F1; reflexivity|]. intros k x Hx. rewrite F6. exact Hx.
 Qed.
 
 Theorem monotone sched ae : mono (sh (run init sched)) (sh (run init (sched ++ [ae]))).
@@ -456,7 +649,11 @@ Proof.
   pose proof (g_wm_le s g Hdr) as [A1 A2]. pose proof (g_wm_le s g Dat) as [B1 B2].
   pose proof (g_di_le s g) as C. pose proof (g_di_dur s g) as (D1 & D2 & D3).
   rewrite Hs, N.eqb_refl.
-  rewrite (proj2 (N.leb_le _ _) A1), (proj2 (N.leb_le _ _) A2), (proj2 (N.leb_le _ _) B1), (proj2 (N.leb_le _ _) B2).
+  assert (WD : forall k, wm_dur s k = true).
+  { intros k. unfold wm_dur. destruct (N.eqb_spec (mu s k) 0) as [Hf|Hh].
+    - rewrite (g_wm_eq s g k Hf). apply N.eqb_refl.
+    - apply N.leb_le. apply (g_wm_le s g k). }
+  rewrite (proj2 (N.leb_le _ _) A1), (proj2 (N.leb_le _ _) B1), !WD.
   rewrite (proj2 (N.leb_le _ _) C), (proj2 (N.leb_le _ _) D1), (proj2 (N.leb_le _ _) D2), (proj2 (N.leb_le _ _) D3).
   cbn [andb app].
   assert (K : forall k h, 1 <= h <= wmv s k -> on_da s k h = true).
@@ -479,8 +676,65 @@ Proof.
   rewrite F1, F2, F3, F4. reflexivity.
 Qed.
 
-Theorem gcheck_reachable sched : pp (run init sched) = P0 -> gcheck (sh (run init sched)) = [].
+Theorem gcheck_reachable sched : pp (run init sched) = PL0 -> gcheck (sh (run init sched)) = [].
 Proof.
   intros HP. destruct (interleaving sched) as (g & HPc & _). apply gcheck_sound; [exact g|].
   rewrite HP in HPc. exact HPc.
 Qed.
+
+(* ---- the two writers of the data watermark ------------------------------------------------------------------ *)
+(* the mutex excludes: block production and the data submission loop are never both between Lock and Unlock *)
+Theorem watermark_mutex sched :
+  ~ (holds_p (pp (run init sched)) = true /\ holds_s (ps (run init sched) Dat) = true).
+Proof.
+  destruct (interleaving sched) as (_ & HP & HS & _). specialize (HS Dat). intros [A B].
+  destruct (pp (run init sched)); cbn in A; try discriminate A;
+    destruct (ps (run init sched) Dat); cbn in B; try discriminate B;
+    cbn in HP, HS; destruct HP as (_ & M2 & _); destruct HS as (M1 & _); rewrite M1 in M2; discriminate M2.
+Qed.
+
+(* the durable copy is the volatile value whenever nobody is inside setLastSubmittedHeight *)
+Theorem durable_is_volatile_when_free sched k :
+  mu (sh (run init sched)) k = 0 -> wmp (sh (run init sched)) k = wmv (sh (run init sched)) k.
+Proof. destruct (interleaving sched) as (g & _). apply (g_wm_eq _ g). Qed.
+
+(* BEFORE the repair (no mutex): block production steps over the empty block 1 - swaps 0 -> 1 in memory -, the
+   data submission loop has block 2 accepted, swaps 1 -> 2 and stores 2, then block production stores 1. *)
+Definition yes (n : N) : env := {| e_ok := true; e_txs := true; e_n := n |}.
+Definition yes_empty (n : N) : env := {| e_ok := true; e_txs := false; e_n := n |}.
+Definition no : env := {| e_ok := false; e_txs := false; e_n := 0 |}.
+Definition two_writers_sched : list (act * env) :=
+  (* block 1, no transactions *)
+  [ (AProd, no); (AProd, no); (AProd, no); (AProd, no); (AProd, yes_empty 0); (AProd, no); (AProd, yes 11);
+    (AProd, yes 0); (AProd, no); (AProd, no); (AProd, no); (AProd, no) ] ++
+  (* block 2, with transactions *)
+  [ (AProd, no); (AProd, no); (AProd, no); (AProd, no); (AProd, yes 0); (AProd, no); (AProd, yes 12);
+    (AProd, yes 0); (AProd, no); (AProd, no); (AProd, no); (AProd, no) ] ++
+  (* third call: the limit test calls numWaitingData: reads, Lock, swap 0 -> 1 *)
+  [ (AProd, yes 0); (AProd, no); (AProd, no); (AProd, no); (AProd, no) ] ++
+  (* data submission loop: reads watermark 1, height 2; block 2 accepted; marks; Lock; swap 1 -> 2; put 2 *)
+  [ (ASub Dat, no); (ASub Dat, no); (ASub Dat, yes 2); (ASub Dat, no); (ASub Dat, no); (ASub Dat, no); (ASub Dat, no) ].
+Definition two_writers_last : act * env := (AProd, no).   (* block production: put 1 *)
+
+Lemma two_writers_unlocked_witness :
+  let a := sh (run_old init two_writers_sched) in
+  let b := sh (run_old init (two_writers_sched ++ [two_writers_last])) in
+  (wmv a Dat, wmp a Dat) = (2, 2) /\ (wmv b Dat, wmp b Dat) = (2, 1) /\
+  (* after a restart the node resumes from the durable value: block 2 is above it although its data is on the DA layer *)
+  mem (2, 12) (da b Dat) = true /\ (forall k, mu b k = 0).
+Proof. vm_compute. repeat split; destruct k; reflexivity. Qed.
+
+Theorem two_writers_unlocked_false :
+  ~ (forall sched ae, mono (sh (run_old init sched)) (sh (run_old init (sched ++ [ae])))).
+Proof.
+  intros H. destruct (H two_writers_sched two_writers_last) as (_ & _ & Hp & _). specialize (Hp Dat).
+  vm_compute in Hp. apply Hp. reflexivity.
+Qed.
+
+(* the same schedule WITH the mutex: the submission loop waits at Lock, the durable value never goes back, and once
+   both have finished it is 2 *)
+Lemma two_writers_locked_same_schedule :
+  let b := sh (run init (two_writers_sched ++ [two_writers_last])) in
+  let c := sh (run init (two_writers_sched ++ [two_writers_last; (AProd, no); (ASub Dat, no); (ASub Dat, no); (ASub Dat, no); (ASub Dat, no)])) in
+  (wmv b Dat, wmp b Dat) = (1, 1) /\ (wmv c Dat, wmp c Dat) = (2, 2).
+Proof. vm_compute. split; reflexivity. Qed.
